@@ -24,14 +24,29 @@ LEVEL_TEXT = ("Lean 4 theorems over the formula model whose operator table, deri
 
 
 def correspond(ctx):
-    return X.run(ctx, "c01", ctx.n(400, 100000), gen_kwargs={"allow_repeated": True})
+    r = X.run(ctx, "c01", ctx.n(400, 100000), gen_kwargs={"allow_repeated": True, "allow_cast": True})
+    # the law is about the CURRENT values, uncertainties and correlations: histories of edits,
+    # method switches and recalculations (the session state machine of C05/C15), whose
+    # derivative-method reads are judged against the model and the formula built afresh
+    from props import _worldcheck as W
+    h = W.run(ctx, "c05", ctx.n(60, 1500), 30)
+    for f in h["failures"]:
+        f["signature"] = "c01:history:" + f["signature"].split(":", 1)[-1]
+    r["failures"] += h["failures"]
+    r["evaluations"] += h["evaluations"]
+    r["skipped"] += h["skipped"]
+    r["nontrivial"] |= h["nontrivial"]
+    r["distribution"]["histories"] = h["evaluations"]
+    for k, v in h["distribution"].items():
+        r["distribution"]["history-" + k] = v
+    return r
 
 
 def search(ctx, broken):
     out = {"failures": [], "strategy": []}
     try:
         r = X.run(ctx, "c01", ctx.n(1500, 20000), ref=True,
-                  gen_kwargs={"allow_repeated": True})
+                  gen_kwargs={"allow_repeated": True, "allow_cast": True})
         for f in r["failures"]:
             f["oracle"] = "independent"
             f["kind"] = "violation"
